@@ -125,11 +125,21 @@ def run_one(engine, prop, tier, verif_seed, index, plan=None):
     rs = kernel.run_seed_for(verif_seed, prop, spec["engine"], index)
     if plan is None:
         plan = engine.gen_plan(prop, rs, tier)
-    res = engine.execute(prop, plan)
+    res = hermetic_execute(engine, prop, plan)
     res["index"] = index
     res["run_seed"] = rs
     res["plan"] = plan
     return res
+
+
+def hermetic_execute(engine, prop, plan):
+    """Every execution starts from fresh module state of the code under test."""
+    from simkit import launch
+
+    launch.purge_batchie()
+    if hasattr(engine, "reset_state"):
+        engine.reset_state()
+    return engine.execute(prop, plan)
 
 
 def _worker_chunk(indices):
@@ -163,7 +173,7 @@ def _worker_chunk(indices):
 
 def _still_fails(engine, prop, plan, oracle_id, signature):
     try:
-        r = engine.execute(prop, plan)
+        r = hermetic_execute(engine, prop, plan)
     except Exception:
         return None
     for v in r["violations"]:
@@ -260,7 +270,7 @@ def do_replay(path, as_json=False):
     engine = load_engine(prop)
     if hasattr(engine, "preload"):
         engine.preload(prop)
-    res = engine.execute(prop, body["plan"])
+    res = hermetic_execute(engine, prop, body["plan"])
     hit = [
         v
         for v in res["violations"]
